@@ -44,20 +44,35 @@ Proof.
   destruct (N.leb_spec 1 (len r + 1)) as [H|H]; [|lia]. reflexivity.
 Qed.
 
-Lemma str_split_at_of_nat (s : str) (i : nat) : (i <= length s)%nat ->
-  str_split_at s (N.of_nat i) = Ret (firstn i s, skipn i s).
-Proof.
-  intros Hi. unfold str_split_at, len.
-  destruct (N.leb_spec (N.of_nat i) (N.of_nat (length s))) as [H|H]; [|lia].
-  rewrite Nat2N.id. reflexivity.
-Qed.
-
 Lemma nth_N_some_lt {A} (l : list A) : forall i x, nth_N l i = Some x -> i < len l.
 Proof.
   induction l as [|y l IH]; intros i x; cbn [nth_N]; [discriminate|].
   rewrite len_cons. destruct (N.eqb_spec i 0) as [E|E]; [lia|].
   intros H. apply IH in H. lia.
 Qed.
+
+(* `str::split_at` panics off a char boundary; a position holding an ASCII byte (here always the '/' the crate has just found or
+   checked) is a boundary by the byte-level test core performs: no well-formedness hypothesis is needed *)
+Lemma is_char_boundary_at_ascii (s : str) (i : N) (b : N) : nth_N s i = Some b -> b < 128 -> is_char_boundary s i = true.
+Proof.
+  intros H Hb. unfold is_char_boundary. rewrite H.
+  destruct (N.leb_spec 128 b) as [A|A]; [lia|]. cbn [andb negb]. rewrite !Bool.orb_true_r. reflexivity.
+Qed.
+
+Lemma str_split_at_at_ascii (s : str) (i : N) (b : N) : nth_N s i = Some b -> b < 128 ->
+  str_split_at s i = Ret (firstn (N.to_nat i) s, skipn (N.to_nat i) s).
+Proof.
+  intros H Hb. unfold str_split_at. rewrite (is_char_boundary_at_ascii s i b H Hb).
+  apply nth_N_some_lt in H. destruct (N.leb_spec i (len s)) as [A|A]; [reflexivity|lia].
+Qed.
+
+Lemma find_nth_N (c : N) (s : str) (i : nat) : find c s = Some i -> nth_N s (N.of_nat i) = Some c.
+Proof.
+  unfold find. intros F. destruct (position_some _ _ _ F) as (a & b & r & -> & Hl & Hb & _).
+  apply N.eqb_eq in Hb. subst b. replace (N.of_nat i) with (len a) by (unfold len; rewrite Hl; reflexivity).
+  apply nth_N_app_len.
+Qed.
+
 
 (* ---- src/pointer.rs  is_root / count -------------------------------------------------------------------- *)
 
@@ -98,8 +113,7 @@ Proof.
   destruct p as [|b r]; [reflexivity|]. cbn [is_root skipn].
   rewrite slice_from_1_cons. unfold findN.
   destruct (find 47 r) as [i|] eqn:F; cbn [option_map].
-  - assert (Hi : (i <= length r)%nat) by (apply position_lt in F; lia).
-    rewrite (str_split_at_of_nat r i Hi). reflexivity.
+  - rewrite (str_split_at_at_ascii r (N.of_nat i) 47 (find_nth_N 47 r i F)) by lia. rewrite Nat2N.id. reflexivity.
   - reflexivity.
 Qed.
 
@@ -107,9 +121,8 @@ Theorem gen_split_at_eq (p : str) (k : N) : gen_Pointer_split_at p k = Ret (spli
 Proof.
   unfold gen_Pointer_split_at, split_at, get_byte. change SLASH with 47.
   destruct (nth_N p k) as [b|] eqn:E; cbn [optN_eqb].
-  - destruct (b =? 47); cbn [negb]; [|reflexivity].
-    apply nth_N_some_lt in E. unfold str_split_at.
-    destruct (N.leb_spec k (len p)) as [H|H]; [|lia]. reflexivity.
+  - destruct (N.eqb_spec b 47) as [Hb|Hb]; cbn [negb]; [|reflexivity]. subst b.
+    rewrite (str_split_at_at_ascii p k 47 E) by lia. reflexivity.
   - reflexivity.
 Qed.
 
